@@ -74,6 +74,15 @@ def stratified(scen, key, budget, rng):
     return out, len(groups)
 
 
+def set_lkind(o, lk, k):
+    o["lkind"] = lk
+    if lk == "nonstatio":          # identities (time id, point id) must stay below 8: 2 times x 4 points
+        o["npts"], o["ntp"] = 4, 2
+        o["b"] = o["b"] if o["b"] in (1, 2, 4) else 2
+        o["bt"] = 1 + k % 2
+    return o
+
+
 def with_opts(scen, rng, aux_ok=True):
     cases = []
     for k, s in enumerate(scen):
@@ -87,6 +96,9 @@ def with_opts(scen, rng, aux_ok=True):
         o["aux"] = aux
         o["shard"] = bool(aux in ("obs", "both") and (k // 5) % 2)      # the non-jitted loop (obs_batch_sharding given)
         o["partial"] = bool((k // 2) % 2) and C["fault"] >= 0 and C["origin"] != "loss"      # NaN in ONE entry of a two-entry leaf
+        # loss kind / generator kind of the training problem (the built-in validation loss of the driver is an ODE loss)
+        lk = ["ode", "statio", "nonstatio"][(k // 7) % 3] if C["vkind"] != "builtin" else "ode"
+        set_lkind(o, lk, k)
         if C["vkind"] == "builtin":
             o["bval"] = [2, 4, o["npts"] if o["npts"] in (1, 2, 4, 8) else 2][k % 3]
             o["vobs"] = bool(k % 2) and o["bval"] <= 4
@@ -148,7 +160,8 @@ def run(pid, tier, seed, *, select, extra_cases, rule, assumptions, level="model
                      resumed=sum(1 for r in recs if r["case"].get("resume") is not None), non_decoded_optimizers=sum(1 for r in recs if not r["decoded"]),
                      with_aux=sum(1 for r in recs if r["case"]["opt"].get("aux", "none") != "none"),
                      sharded_loop=sum(1 for r in recs if r["case"]["opt"].get("shard")),
-                     partial_leaf_faults=sum(1 for r in recs if r["case"]["opt"].get("partial")))
+                     partial_leaf_faults=sum(1 for r in recs if r["case"]["opt"].get("partial")),
+                     pde_losses=sum(1 for r in recs if r["case"]["opt"].get("lkind", "ode") != "ode"))
         for k in (needs or []):
             if not stats.get(k):
                 raise core.MachineryError(f"vacuous: no scenario of kind '{k}' was replayed")
